@@ -191,6 +191,11 @@ func (idx *IVFPQIndex) Train(vectors []VectorNode) error {
 	if len(vectors) < idx.nlist*10 {
 		return fmt.Errorf("need at least %d vectors for training", idx.nlist*10)
 	}
+	// Each PQ codebook needs Ksub centroids, and k-means returns at most one
+	// centroid per training vector (same requirement as PQIndex.Train).
+	if len(vectors) < idx.Ksub {
+		return fmt.Errorf("need at least %d vectors for training", idx.Ksub)
+	}
 
 	// Validate dimensionality
 	for _, v := range vectors {
